@@ -202,6 +202,15 @@ pub fn run(tier: Tier) -> i32 {
 
     // 1. per-rule lints on every candidate document (single-rule groups)
     let mut cands: Vec<String> = h.seeds.iter().filter(|s| s.chars().count() >= 6).cloned().collect();
+    // lower-cased proper-noun phrases trigger the capitalisation rule groups
+    let lowered: Vec<String> = h
+        .seeds
+        .iter()
+        .filter(|s| s.chars().any(|c| c.is_uppercase()) && s.chars().count() >= 4 && s.chars().count() <= 60)
+        .map(|s| format!("We saw {} there.", s.to_lowercase()))
+        .collect();
+    cands.extend(lowered);
+    cands.push("This is the 2ND and the 3RD time I want to to do it, in to the day.".into());
     // generated seeds for the dictionary-driven and structural rules
     cands.push("this sentence keeps going and going with many words so that it becomes much longer than forty words in total which is what the long sentence rule needs in order to fire at all when we run the whole group of rules over it today".into());
     cands.push("He said \"this is unclosed.".into());
